@@ -8,7 +8,7 @@ PROOF_MODULES = ["GrpcProofs.Properties.C34"]
 THEOREMS = ["GrpcProofs.C34." + t for t in (
     "constants_pinned", "dedup_spec", "interleave_perm", "interleave_preserves_family_order",
     "interleave_starts_with_first_address", "preprocess_ok", "ready_reported_only_for_raw_ready",
-    "pick_returns_only_ready_subconn", "others_shut_down_on_ready", "connect_order_is_list_order", "tf_after_all_failed", "sticky_tf_partial", "sticky_tf_counterexample")]
+    "pick_returns_only_ready_subconn", "others_shut_down_on_ready", "connect_order_is_list_order", "tf_after_all_failed", "sticky_tf")]
 DESIGN_REF = "DESIGN.md section 8, C34"
 TECHNIQUE = ("Lean 4 theorems (list induction for de-dup/interleave, invariants by induction over op lists for the balancer) about a "
              "full port of the pick_first state machine + T2 differential correspondence on the real balancer (recording ClientConn and "
@@ -17,9 +17,10 @@ LEVEL_TEXT = ("Machine-checked Lean proofs: for every address list, pre-processi
               "each family's order and starts with the resolver's first address; for every op history of the model, READY is only "
               "reported / a SubConn only picked while that SubConn's raw state is READY, all other SubConns are shut down when one "
               "becomes READY, connections within a pass are requested in strictly increasing list position, TRANSIENT_FAILURE is "
-              "reported when the last address failed; sticky TF is proved step-wise for every op except a non-empty resolver update "
-              "(sticky_tf_partial) and REFUTED in general (F13: after a resolver update in TF a SubConn whose effectiveState is not "
-              "TF reports CONNECTING and it is forwarded), replayed on the real balancer.")
+              "reported when the last address failed, and (sticky_tf, full strength since /repo 97a72f7) from TRANSIENT_FAILURE with "
+              "a non-empty list and no READY SubConn every continuation of any length — resolver updates with ANY non-empty list, "
+              "SubConn reports, timer, Pick, ExitIdle, resolver errors — reports nothing but TRANSIENT_FAILURE until a SubConn "
+              "becomes READY or goes CONNECTING->IDLE.")
 LEVEL_NOTE = ("Trusted: Lean kernel; hand model lean/GrpcModel/Model/PickFirst.lean tied by differential runs. Domain of the fake channel "
               "(what the real channel guarantees): SubConn states are reported only for existing SubConns, SHUTDOWN only after "
               "Shutdown(); health updates only reach a listener registered since the SubConn last became READY. Readings: (1) 'latest "
@@ -115,7 +116,8 @@ def gen_case(rng, maxlen, ci):
 
 
 def directed():
-    # F13 (DESIGN.md section 7): in TF a resolver update adds an address; its SubConn's CONNECTING is reported
+    # F13 (DESIGN.md section 7, fixed by /repo 97a72f7): in TF a resolver update adds an address; its SubConn's CONNECTING
+    # must not be reported
     yield Case("s_pickfirst", ["update 0 0 e 4.1", "sc 1 C 0", "sc 1 T 1", "update 0 0 e 4.1,4.2", "sc 2 C 0"], "f13-witness")
     # same, but the update brings no new address: sticky TF holds
     yield Case("s_pickfirst", ["update 0 0 e 4.1", "sc 1 C 0", "sc 1 T 1", "update 0 0 e 4.1", "sc 1 I 0", "sc 1 C 0", "sc 1 T 2", "pick"], "sticky-ok")
